@@ -160,3 +160,27 @@ Proof.
   unfold ev. cbn [g_eval map g_lookup String.eqb Ascii.eqb Bool.eqb g_call existsb orb g_binop fst snd is_true].
   rewrite !encode_length. destruct (maxw <? Z.of_N (utf8_len (p0 :: pr)) + Z.of_N (utf8_len w)); reflexivity.
 Qed.
+
+(* ---- indentation: closeBlock's clamp and the open block, for all depths -------------------------------------------- *)
+Theorem close_indent_all indent : close_indent_tab indent = Z.of_nat (Nat.pred indent).
+Proof.
+  unfold close_indent_tab.
+  change (assign_op "fmt.go:closeBlock" 0) with "--".
+  change (cond_of "fmt.go:closeBlock" 0) with (GBin "<" (GVar "p.indent") (GInt 0)).
+  change (assign_of "fmt.go:closeBlock" 1) with (GInt 0).
+  unfold ev. cbn [g_eval map g_lookup String.eqb Ascii.eqb Bool.eqb g_binop fst snd is_true].
+  destruct indent as [|k]; [reflexivity|].
+  replace (Z.of_nat (S k) - 1 <? 0) with false by lia. cbn [Nat.pred]. lia.
+Qed.
+
+Theorem diff_file_close_all t r indent :
+  diff_file (FClose t :: r) indent =
+  single_line (Z.to_nat (close_indent_tab indent)) (tstart t) (tend t) None (token_source t)
+  :: diff_file r (Z.to_nat (close_indent_tab indent)).
+Proof. rewrite close_indent_all, Nat2Z.id. reflexivity. Qed.
+
+Theorem diff_file_header_all h r indent :
+  diff_file (FHeader h :: r) indent =
+  single_line indent (hstart h) (hend h) (hcomment h) (header_text h)
+  :: diff_file r (if is_true (ev [("block.Open", VB (hopen h))] (cond_of "fmt.go:doBlockHeader" 2)) then S indent else indent).
+Proof. cbn [diff_file]. destruct (hopen h); reflexivity. Qed.
